@@ -327,3 +327,126 @@ Proof.
   inversion Hwf as [|? ? Hit Hl]; subst. cbn [print_items map concat fst].
   rewrite (lexs_item it n _ Hit), (IH Hl). reflexivity.
 Qed.
+
+(* ---- the item loop *)
+
+Lemma word_no_colon : forall w, forallb is_word w = true -> Forall (fun x => x <> 58) w.
+Proof.
+  induction w as [|c w IH]; intros H; [constructor|]. cbn in H. apply andb_prop in H. destruct H as (Hc & Hw).
+  constructor; [intros ->; discriminate|auto].
+Qed.
+
+Lemma split_colon_plain : forall w cur, Forall (fun x => x <> 58) w -> split_colon w cur = [rev cur ++ w].
+Proof.
+  induction w as [|c w IH]; intros cur H; cbn [split_colon].
+  - rewrite app_nil_r. reflexivity.
+  - inversion H as [|? ? Hc Hw]; subst. replace (c =? 58) with false by (symmetry; apply Z.eqb_neq, Hc).
+    rewrite (IH _ Hw). cbn [rev]. rewrite <- app_assoc. reflexivity.
+Qed.
+
+Lemma split_colon_app : forall w cur r, Forall (fun x => x <> 58) w ->
+  split_colon (w ++ 58 :: r) cur = (rev cur ++ w) :: split_colon r [].
+Proof.
+  induction w as [|c w IH]; intros cur r H; cbn [app split_colon].
+  - rewrite app_nil_r. reflexivity.
+  - inversion H as [|? ? Hc Hw]; subst. replace (c =? 58) with false by (symmetry; apply Z.eqb_neq, Hc).
+    rewrite (IH _ _ Hw). cbn [rev]. rewrite <- app_assoc. reflexivity.
+Qed.
+
+Lemma letter_plain : forall c, is_letter c = true ->
+  (c =? 42) = false /\ (c =? 43) = false /\ (c =? 45) = false /\ (c =? 61) = false /\ (c =? 91) = false /\ (c =? 40) = false /\
+  (c =? 60) = false /\ (c =? 123) = false /\ (c =? 93) = false /\ (c =? 41) = false /\ (c =? 62) = false /\ (c =? 125) = false.
+Proof.
+  intros c H. unfold is_letter in H. apply orb_prop in H.
+  destruct H as [H|H]; apply andb_prop in H; destruct H as (H1 & H2); apply Z.leb_le in H1, H2;
+  repeat split; apply Z.eqb_neq; lia.
+Qed.
+
+Definition dpart_of (t : stype) : list Z := match t_delim t with Some d => [40; d; 41] | None => [] end.
+
+Lemma type_and_delim_printed : forall t, wf_type t ->
+  type_and_delim (S (length (t_name t ++ dpart_of t))) (t_name t ++ dpart_of t) = Some (t_name t, t_delim t).
+Proof.
+  intros [tn td ts] ((Htn0 & Htn) & Hd & _). cbn [t_name t_delim t_sub dpart_of] in *.
+  destruct tn as [|t0 tn']; [congruence|]. cbn [app type_and_delim].
+  pose proof Htn as Htn'. cbn in Htn'. apply andb_prop in Htn'. destruct Htn' as (Ht0 & _). rewrite Ht0.
+  destruct td as [d|].
+  - destruct Hd as (Hdw & _ & _). rewrite app_comm_cons.
+    rewrite (span_word_app (t0 :: tn') [40; d; 41] Htn); [|right; eexists; eexists; split; reflexivity].
+    rewrite Hdw. reflexivity.
+  - rewrite app_nil_r. rewrite <- (app_nil_r (t0 :: tn')) at 1. rewrite (span_word_app (t0 :: tn') [] Htn); [reflexivity|left; reflexivity].
+Qed.
+
+Lemma compile_body : forall name ty spec its acc n1 n2 o,
+  wf_item (SArg name o ty n1 n2) ->
+  compile_items (body_str name ty :: its) spec acc =
+  compile_items its None
+    (match ty with
+     | None => mkArg name spec None None None true
+     | Some t => mkArg name spec (Some (t_name t)) (t_delim t) (t_sub t) (negb (list_eqb (t_name t) n_cs || list_eqb (t_name t) n_nox))
+     end :: acc).
+Proof.
+  intros name ty spec its acc n1 n2 o ((Hn0 & Hnw) & (c & nr & -> & Hc) & _ & Hty).
+  destruct (letter_plain c Hc) as (E1 & E2 & E3 & E4 & E5 & E6 & E7 & E8 & E9 & E10 & E11 & E12).
+  pose proof (word_no_colon _ Hnw) as Hnc.
+  destruct ty as [t|].
+  - (* typed *)
+    pose proof Hty as ((Htn0 & Htn) & Hd & Hs).
+    rewrite body_str_eq. cbn [ty_str]. cbn [compile_items].
+    assert (Hsplit : split_colon ((c :: nr) ++ 58 :: t_name t ++ dpart_of t ++ match t_sub t with Some s => 58 :: s | None => [] end) []
+                     = (c :: nr) :: (t_name t ++ dpart_of t) :: match t_sub t with Some s => [s] | None => [] end).
+    { rewrite (split_colon_app (c :: nr) [] _ Hnc). cbn [rev app]. f_equal.
+      assert (Hp : Forall (fun x => x <> 58) (t_name t ++ dpart_of t)).
+      { apply Forall_app. split; [apply word_no_colon, Htn|]. unfold dpart_of. destruct (t_delim t) as [d|]; [|constructor].
+        destruct Hd as (_ & _ & Hd58). repeat constructor; try discriminate. exact Hd58. }
+      destruct (t_sub t) as [s|].
+      - rewrite app_assoc, (split_colon_app _ [] s Hp). cbn [rev app]. f_equal.
+        destruct Hs as (_ & Hsw). rewrite (split_colon_plain s [] (word_no_colon _ Hsw)). reflexivity.
+      - rewrite app_nil_r, (split_colon_plain _ [] Hp). reflexivity. }
+    unfold dpart_of in Hsplit.
+    destruct nr as [|c2 nr'].
+    + cbn [app] in *. rewrite Hc. rewrite Hsplit.
+      pose proof (type_and_delim_printed t Hty) as Htd. unfold dpart_of in Htd. rewrite Htd.
+      destruct (t_sub t); reflexivity.
+    + cbn [app] in *. rewrite Hc. rewrite Hsplit.
+      pose proof (type_and_delim_printed t Hty) as Htd. unfold dpart_of in Htd. rewrite Htd.
+      destruct (t_sub t); reflexivity.
+  - (* untyped *)
+    rewrite body_str_eq. cbn [ty_str]. rewrite app_nil_r. cbn [compile_items].
+    destruct nr as [|c2 nr'].
+    + rewrite E1, E2, E3, E4, E5, E6, E7, E8, E9, E10, E11, E12, Hc. reflexivity.
+    + rewrite Hc, (split_colon_plain _ [] Hnc). reflexivity.
+Qed.
+
+Lemma compile_item : forall it its acc, wf_item it ->
+  compile_items (tokens_item it ++ its) None acc = compile_items its None (arg_of_item it :: acc).
+Proof.
+  intros it its acc Hwf. destruct it as [c| |name [o|] ty n1 n2]; cbn [tokens_item app arg_of_item].
+  - destruct Hwf as [->|[->| ->]]; reflexivity.
+  - reflexivity.
+  - pose proof Hwf as (_ & _ & Ho & _).
+    assert (Hopen : compile_items ([o] :: body_str name ty :: [closer o] :: its) None acc
+                    = compile_items (body_str name ty :: [closer o] :: its) (Some [o; closer o]) acc).
+    { destruct Ho as [->|[->|[->| ->]]]; reflexivity. }
+    rewrite Hopen, (compile_body name ty _ _ acc n1 n2 (Some o) Hwf).
+    destruct Ho as [->|[->|[->| ->]]]; destruct ty; reflexivity.
+  - rewrite (compile_body name ty _ _ acc n1 n2 None Hwf). destruct ty; reflexivity.
+Qed.
+
+Lemma compile_tokens : forall l acc, Forall wf_item (map fst l) ->
+  compile_items (concat (map (fun p => tokens_item (fst p)) l)) None acc = SigOk (rev acc ++ map (fun p => arg_of_item (fst p)) l).
+Proof.
+  induction l as [|[it n] l IH]; intros acc Hwf.
+  - cbn. rewrite app_nil_r. reflexivity.
+  - inversion Hwf as [|? ? Hit Hl]; subst. cbn [map concat fst].
+    rewrite (compile_item it _ acc Hit), (IH _ Hl). cbn [rev]. rewrite <- app_assoc. reflexivity.
+Qed.
+
+(* M4 *)
+Theorem compile_print_sig : forall lead l, Forall wf_item (map fst l) ->
+  compile_sig (print_sig lead l) = SigOk (map (fun p => arg_of_item (fst p)) l).
+Proof.
+  intros lead l Hwf. unfold compile_sig, print_sig.
+  change (lex_sig (length (sp lead ++ print_items l)) (sp lead ++ print_items l)) with (lexs (sp lead ++ print_items l)).
+  rewrite lexs_sp, (lexs_items l Hwf). exact (compile_tokens l [] Hwf).
+Qed.
